@@ -3,28 +3,30 @@ CFG = dict(
     level="proof",
     design_ref="DESIGN.md §7.16, §8 item 8",
     level_text="PARTIAL (wall-clock tick timing, the ExecuteDuties goroutines and the one-third-slot wait are outside the model; ticker uniqueness is a hypothesis). "
-               "Lean 4 theorems over the model of the attester / proposer / sync-committee handlers and the duty store, for ALL networks (slots per epoch, epochs per period), "
-               "initial clocks and ALL event lists (ticks, reorg(previous|current) notices, indices-change notices, every fetch paired with noIdx|fail|ok assignment), by induction: "
-               "at most once (tick slots strictly increasing); only at the tick of its own slot and inside the shouldExecute window (no hypothesis); "
-               "only the most recently fetched assignment (proposer, sync committee: no hypothesis; attester: event slots never go backwards); "
-               "exactly once if fetched (proposer: event slots never go backwards; attester, sync committee: additionally no reorg(current)/indices-change notice that resets the "
-               "next epoch's/period's duties directly followed by a tick of a later epoch/period). The full exactly-once statement is REFUTED for the attester (two witnesses) and "
-               "sync-committee handlers, the full only-latest statement for the attester handler; each witness is replayed on the real handlers (known findings).",
+               "Lean 4 theorems over the model of the attester / proposer / sync-committee handlers (code after fix 1e0cc1057) and the duty store, for ALL networks "
+               "(slots per epoch, epochs per period), initial clocks and ALL event lists (ticks, reorg(previous|current) notices, indices-change notices, every fetch paired with "
+               "noIdx|fail|ok assignment), by induction: at most once (tick slots strictly increasing); only at the tick of its own slot and inside the shouldExecute window (no "
+               "hypothesis); only the most recently fetched assignment (no hypothesis); exactly once if fetched, for all three handlers, whenever no tick is handled after an event "
+               "that carries a later slot (notices may be handled arbitrarily late). Without that order condition the exactly-once statement is still refuted for the attester "
+               "handler (a reorg(previous) notice of the next epoch handled before a pending tick): known finding, replayed on the real handler. The four defects of the pre-fix "
+               "tree are regression lemmas (old handlers fail / fixed handlers pass) and regression corpus cases.",
     level_note="Trusted: Lean kernel (axioms propext/Classical.choice/Quot.sound only), the go/ast fact extractor, the harness (mocks of slot ticker, wall clock, beacon node, "
                "validator controller; in small-network cases also of slots-per-epoch / epochs-per-period), its canonicalisation and its oracle. The handlers run in their own "
                "goroutine; determinism comes from a no-op reorg event used as a barrier, no sleeps.",
-    technique="Lean 4 proof (inductive invariants over event lists; refutation witnesses by `decide`) + regenerated constants / literal-operator lists / call-site facts + "
-              "differential run of the real handlers against the model + implementation-side oracle",
+    technique="Lean 4 proof (inductive invariants over event lists; regression / refutation witnesses by `decide`) + regenerated constants / literal-operator lists / call-site and "
+              "statement-presence facts + differential run of the real handlers against the model + implementation-side oracle",
     lean=["Ssv.Props.C16"],
     engines=[dict(harness="duties", driver="m_duties", case_delim="reset", n_quick=1500, n_thorough=40000, thorough_seeds=4, n_search=6000, search_seeds=4)],
     rule="seeded generator: handler kind (att 45% / prop 20% / sync 35%), network (real 32/256 near epoch and sync-period boundaries, or small spe in {4,6,8,16} x epp in {2,3,4,8}), "
          "40-160 ticks per case with skipped slots, clock skew (-1, +1, +spe+2), reorg(previous|current|both) and indices-change notices before/after ticks (boosted after the last "
-         "slot of an epoch, 1% handled one tick late), per-fetch outcome ok (changing assignments, fresh content tags) / fail / no-active-indices in three failure regimes; "
-         "each event is applied to the real handler and to the Lean model; distinct+non-trivial = (handler, network mode, event kind, sequence of fetch outcomes and non-empty dispatch)",
+         "slot of an epoch; 1% handled one tick late; 1% carrying a slot later than the next tick), per-fetch outcome ok (assignments change at every re-fetch: validators move "
+         "between slots, fresh content tags) / fail / no-active-indices in three failure regimes; each event is applied to the real handler and to the Lean model; "
+         "distinct+non-trivial = (handler, network mode, event kind, sequence of fetch outcomes and non-empty dispatch)",
     trusted_base=["mock slot ticker / wall clock / beacon node / validator controller of the harness; barrier = a ReorgEvent{Previous:false,Current:false} passing through the handler's select loop",
                   "in small-network cases the slot/epoch/period arithmetic of the mocked BeaconNetwork mirrors beacon.Network with the two parameters replaced (real-network cases use the real beacon.Network)",
                   "the oracle's reading of 'fetched successfully': most recent fetch for the epoch/period succeeded and no fetch failed or was skipped since"],
     assumptions=["the slot ticker delivers strictly increasing slots (real slotticker: `nextSlot <= s.slot` guard)",
+                 "exactly-once clause: the handler's select loop does not take a tick after a notice that carries a later slot (notices may be arbitrarily late)",
                  "ExecuteDuties (goroutine per duty, one-third-slot wait) hands every duty it is given to the executor exactly once — outside the model",
                  "the exactly-once clause speaks about ticks handled while the clock shows the tick's slot"],
 )
